@@ -199,27 +199,42 @@ def _data():
     return _DATA
 
 
-def render_real(case, limit):
-    """-> (result class | 'ok', output text)"""
-    import asyncio
-
-    from liquid import DictLoader, Environment
+def make_template(case):
+    """One Environment + parsed template per case; the limit is set on the environment between renders."""
+    from liquid import CachingDictLoader, DictLoader, Environment
     from liquid.extra.tags import CallTag, MacroTag
 
     class Env(Environment):
-        loop_iteration_limit = limit
         context_depth_limit = case["depth"]
 
-    env = Env(loader=DictLoader({name: partial_source(body) for name, body in case["templates"]}))
+    # DictLoader re-parses a partial on every include/render; the caching variant parses it once (same render path)
+    loader = DictLoader if case.get("loader") == "dict" else CachingDictLoader
+    env = Env(loader=loader({name: partial_source(body) for name, body in case["templates"]}))
     env.add_tag(MacroTag)
     env.add_tag(CallTag)
+    return env, env.from_string(to_source(case["main"]))
+
+
+_LOOP = None
+
+
+def _loop():
+    """One event loop per worker process (asyncio.run would build and tear down a loop per render)."""
+    global _LOOP
+    if _LOOP is None or _LOOP.is_closed():
+        import asyncio
+
+        _LOOP = asyncio.new_event_loop()
+    return _LOOP
+
+
+def render_real(env, tpl, limit, is_async):
+    """-> (result class | 'ok', output text)"""
+    env.loop_iteration_limit = limit  # read as self.env.loop_iteration_limit by RenderContext
     try:
-        tpl = env.from_string(to_source(case["main"]))
-        if case.get("async"):
-            text = asyncio.run(tpl.render_async(**_data()))
-        else:
-            text = tpl.render(**_data())
-        return "ok", text
+        if is_async:
+            return "ok", _loop().run_until_complete(tpl.render_async(**_data()))
+        return "ok", tpl.render(**_data())
     except BaseException as e:  # noqa: BLE001 - the class is the observation
         if isinstance(e, (KeyboardInterrupt, SystemExit)):
             raise
@@ -302,19 +317,26 @@ def digest(events) -> str:
 
 def observe(case):
     kinds = kinds_of(case)
-    res, text = render_real(case, case["limit"])
-    events, problems, worst = parse_output(text, kinds)
-    ures, utext = render_real(case, None)
-    uevents, uproblems, uworst = parse_output(utext, kinds)
+    try:
+        env, tpl = make_template(case)
+    except BaseException as e:  # noqa: BLE001
+        if isinstance(e, (KeyboardInterrupt, SystemExit)):
+            raise
+        return {"runs": [], "problems": ["parse-error " + type(e).__name__], "unlimited": {"result": type(e).__name__, "n_events": 0, "max_product": 0, "worst_chain": [], "max_depth": 0, "nontrivial_depth": 0}}
+    is_async = bool(case.get("async"))
+    ures, utext = render_real(env, tpl, None, is_async)
+    uevents, problems, uworst = parse_output(utext, kinds)
+    runs = []
+    for N in case["limits"]:
+        res, text = render_real(env, tpl, N, is_async)
+        events, probs, worst = parse_output(text, kinds)
+        problems += probs
+        runs.append({"limit": N, "result": res, "n": len(events), "digest": digest(events), "head": events[:12],
+                     "max_product": worst[0] if res == "ok" else 0, "worst_chain": worst[1], "same_as_unlimited": events == uevents})
     return {
-        "result": res,
-        "n": len(events),
-        "digest": digest(events),
-        "head": events[:12],
-        "max_product": worst[0] if res == "ok" else 0,
-        "worst_chain": worst[1],
-        "problems": problems + uproblems,
-        "unlimited": {"result": ures, "n_events": len(uevents), "same_events": uevents == events, "max_product": uworst[0], "worst_chain": uworst[1],
+        "runs": runs,
+        "problems": problems,
+        "unlimited": {"result": ures, "n_events": len(uevents), "max_product": uworst[0], "worst_chain": uworst[1],
                       "max_depth": max((len(e[1]) for e in uevents), default=0),
                       "nontrivial_depth": max((sum(1 for l in e[1] if l >= 2) for e in uevents), default=0)},
     }
@@ -322,37 +344,35 @@ def observe(case):
 
 def direct_oracle(case, obs, what):
     """The property, stated on what the real engine printed."""
-    N = case["limit"]
-    res = obs["result"]
     un = obs["unlimited"]
     if obs["problems"]:
         return (f"{what}|observer|{obs['problems'][0].split(' ')[0]}", f"output bracket structure: {obs['problems'][:3]}")
-    if res != "ok" and res not in KNOWN_ERRORS:
-        return (f"{what}|unexpected|{res}", f"render raised {res}")
     if un["result"] != "ok" and un["result"] not in KNOWN_ERRORS:
         return (f"{what}|unexpected|{un['result']}", f"unlimited render raised {un['result']}")
     if un["result"] == "LoopIterationLimitError":
         return (f"{what}|raised-without-limit", "LoopIterationLimitError with no limit configured")
-    if not N:  # None or 0: no limit configured
-        if res != un["result"] or (res == "ok" and not un["same_events"]):
-            return (f"{what}|no-limit-differs", f"limit {N!r} behaves differently from no limit: {res} vs {un['result']}")
-        return None
-    if res == "ok":
-        # a render that completes never executed a block while the product of enclosing lengths exceeded N
-        if obs["max_product"] > N:
-            chain = ">".join(obs["worst_chain"])
-            return (f"{what}|over|{chain}", f"completed under limit {N} but a block ran {obs['max_product']} times deep (enclosing {chain})")
-        if un["result"] != "ok" or not un["same_events"]:
-            return (f"{what}|limit-altered-output", f"limited render completed but differs from the unlimited one ({un['result']})")
-        return None
-    if res == "LoopIterationLimitError":
-        # ... and it raises only when some reached nest multiplies to more than N
-        if un["result"] == "ok" and un["max_product"] <= N:
-            return (f"{what}|spurious-raise", f"raised under limit {N} but no executed block is nested deeper than product {un['max_product']}")
-        return None
-    # another error class: the limit must not have changed it
-    if un["result"] != res:
-        return (f"{what}|limit-altered-error", f"{res} with limit {N}, {un['result']} without")
+    for run in obs["runs"]:
+        N = run["limit"]
+        res = run["result"]
+        if res != "ok" and res not in KNOWN_ERRORS:
+            return (f"{what}|unexpected|{res}", f"render raised {res}")
+        if not N:  # None or 0: no limit configured
+            if res != un["result"] or (res == "ok" and not run["same_as_unlimited"]):
+                return (f"{what}|no-limit-differs", f"limit {N!r} behaves differently from no limit: {res} vs {un['result']}")
+            continue
+        if res == "ok":
+            # a render that completes never executed a block while the product of enclosing lengths exceeded N
+            if run["max_product"] > N:
+                chain = ">".join(run["worst_chain"])
+                return (f"{what}|over|{chain}", f"completed under limit {N} but a block ran under a product of {run['max_product']} (enclosing {chain})")
+            if un["result"] != "ok" or not run["same_as_unlimited"]:
+                return (f"{what}|limit-altered-output", f"render under limit {N} completed but differs from the unlimited one ({un['result']})")
+        elif res == "LoopIterationLimitError":
+            # ... and it raises only when some reached nest multiplies to more than N
+            if un["result"] == "ok" and un["max_product"] <= N:
+                return (f"{what}|spurious-raise", f"raised under limit {N} but no executed block is nested deeper than product {un['max_product']}")
+        elif un["result"] != res:  # another error class: the limit must not have changed it
+            return (f"{what}|limit-altered-error", f"{res} with limit {N}, {un['result']} without")
     return None
 
 
@@ -363,15 +383,15 @@ class NestStream(Stream):
         return observe(case)
 
     def line(self, case):
-        return ["c06", case["limit"], case["depth"], [[n, to_model(b)] for n, b in case["templates"]], to_model(case["main"])]
+        return ["c06", case["limits"], case["depth"], [[n, to_model(b)] for n, b in case["templates"]], to_model(case["main"])]
 
     def compare_view(self, case, obs):
         # (error class, every block execution with its enclosing lengths — as count + digest + first 12 —, max product)
-        return {"result": obs["result"], "n": obs["n"], "digest": obs["digest"], "head": obs["head"], "max_product": obs["max_product"]}
+        return [{"result": r["result"], "n": r["n"], "digest": r["digest"], "head": r["head"], "max_product": r["max_product"]} for r in obs["runs"]]
 
     def canon_model(self, case, mobs):
-        if isinstance(mobs, dict) and "digest" in mobs:
-            return {"result": mobs["result"], "n": mobs["n"], "digest": mobs["digest"], "head": mobs["head"], "max_product": mobs["max"]}
+        if isinstance(mobs, dict) and "runs" in mobs:
+            return [{"result": r["result"], "n": r["n"], "digest": r["digest"], "head": r["head"], "max_product": r["max"]} for r in mobs["runs"]]
         return mobs
 
     def oracle(self, case, obs):
@@ -384,13 +404,15 @@ class NestStream(Stream):
 
     def tags(self, case, obs):
         un = obs["unlimited"]
-        t = ["res:" + obs["result"], f"dyn-depth{un['max_depth']}", "async" if case.get("async") else "sync"]
-        N = case["limit"]
-        if not N:
-            t.append("limit:none")
-        elif un["result"] == "ok":
-            p = un["max_product"]
-            t.append("limit:=product" if p == N else "limit:product-1" if p == N + 1 else "limit<product" if p > N else "limit>product")
+        t = [f"dyn-depth{un['max_depth']}", "async" if case.get("async") else "sync", f"limits{len(case['limits'])}"]
+        for run in obs["runs"]:
+            t.append("res:" + run["result"])
+            N = run["limit"]
+            if not N:
+                t.append("limit:none")
+            elif un["result"] == "ok":
+                p = un["max_product"]
+                t.append("limit:=product" if p == N else "limit:product-1" if p == N + 1 else "limit<product" if p > N else "limit>product")
         if un["result"] == "ok" and un["worst_chain"]:
             t.append("chain:" + ">".join(un["worst_chain"]))
         return t
@@ -413,7 +435,7 @@ REPEATING = ("for", "tablerow", "include-for", "include-with", "render-for")
 BOUNDARIES = ("none", "render", "include", "call")
 
 
-def build_chain(layers, boundaries, limit, depth=30, is_async=False, srcs=None):
+def build_chain(layers, boundaries, limits, depth=30, is_async=False, srcs=None):
     """layers: [(kind, n)] outermost first; boundaries[i] sits between layer i and layer i+1 (len = len(layers)-1 … or
     len(layers) to also put one between the last layer and the mark)."""
     ids = Ids()
@@ -454,7 +476,7 @@ def build_chain(layers, boundaries, limit, depth=30, is_async=False, srcs=None):
         return [["macro", m, inner(i + 1)], ["call", m]]
 
     main = inner(0)
-    return {"limit": limit, "depth": depth, "async": is_async, "templates": templates, "main": main}
+    return {"limits": list(limits) if isinstance(limits, (list, tuple)) else [limits], "depth": depth, "async": is_async, "templates": templates, "main": main}
 
 
 def chain_limits(lengths):
@@ -477,23 +499,34 @@ class ChainStream(NestStream):
         out = []
         thorough = ctx.tier == "thorough"
         grid1 = list(range(0, 13))
-        grid2 = list(range(0, 13)) if thorough else [0, 1, 2, 3, 5, 12]
+        grid2 = list(range(0, 13)) if thorough else [0, 1, 2, 3, 12]
         grid3 = [0, 1, 2, 3, 6] if thorough else []
         k = 0
         for d, grid in ((1, grid1), (2, grid2), (3, grid3)):
             if not grid:
                 continue
-            for kinds in itertools.product(REPEATING, repeat=d):
+            kindset = REPEATING if d <= 2 else ("for", "tablerow", "include-for", "render-for")
+            for kinds in itertools.product(kindset, repeat=d):
                 bsets = itertools.product(BOUNDARIES, repeat=d) if d <= 2 else itertools.product(("none", "render", "call"), repeat=d)
                 for bs in bsets:
-                    # an `include` below a render/macro boundary is a disabled tag: keep one representative only
+                    # an `include` below a render boundary, a render-for layer or a macro call is a disabled tag
+                    # (DisabledTagError before anything repeats): one representative length vector only
+                    in_copy = disabled = False
+                    for i in range(d):
+                        if kinds[i].startswith("include") and in_copy:
+                            disabled = True
+                        if kinds[i] == "render-for" or bs[i] in ("render", "call"):
+                            in_copy = True
+                        if bs[i] == "include" and (in_copy or kinds[i] == "render-for"):
+                            disabled = True
                     for lens in itertools.product(grid, repeat=d):
+                        if disabled and any(l != 2 for l in lens):
+                            continue
                         lims = chain_limits(list(lens)) or [1]
                         if d == 3:
                             lims = lims[:1] + lims[-2:]
-                        for lim in lims:
-                            k += 1
-                            out.append(build_chain(list(zip(kinds, lens)), list(bs), lim, is_async=bool(k % 2)))
+                        k += 1
+                        out.append(build_chain(list(zip(kinds, lens)), list(bs), lims, is_async=bool(k % 2)))
         return out
 
 
@@ -621,20 +654,22 @@ def gen_random_case(rng, is_async):
     # a macro body / partial can be deeper than declared if it calls a deep macro: budgets are per generated block,
     # and macro bodies are generated with the budget of the place of definition, calls only happen at that level or deeper.
     main = gen_block(4, False, [], 4)
-    case = {"limit": 1, "depth": 30 if rng.chance(85) else rng.range(3, 9), "async": is_async,
+    case = {"limits": [], "depth": 30 if rng.chance(85) else rng.range(4, 10), "async": is_async,
             "templates": [[n, b] for n, b, _ in templates], "main": main}
-    # choose the limit near a product that occurs
+    # choose the limits near products that can occur
     prods = sorted({prod(rng.sample([p for p in palette if p > 0] or [1], rng.range(1, 4))) for _ in range(4)})
-    r = rng.below(100)
-    if r < 4:
-        case["limit"] = None
-    elif r < 7:
-        case["limit"] = 0
-    elif r < 75:
-        p = rng.choice(prods)
-        case["limit"] = min(200, max(1, p + rng.choice([-1, 0, 0, 1, 2, -2])))
-    else:
-        case["limit"] = rng.range(1, 200)
+    for _ in range(rng.range(2, 4)):
+        r = rng.below(100)
+        if r < 4:
+            lim = None
+        elif r < 7:
+            lim = 0
+        elif r < 75:
+            lim = min(200, max(1, rng.choice(prods) + rng.choice([-1, 0, 0, 1, 2, -2])))
+        else:
+            lim = rng.range(1, 200)
+        if lim not in case["limits"]:
+            case["limits"].append(lim)
     return case
 
 
@@ -643,11 +678,13 @@ class RandomStream(NestStream):
 
     def cases(self, ctx):
         rng = ctx.rng_for("random")
-        n = ctx.scale(2500, 40000)
+        n = ctx.scale(1500, 40000)
         out = []
         while len(out) < n:
             c = gen_random_case(rng, is_async=bool(len(out) % 3 == 0))
-            if node_cost(c) <= 20000:
+            if node_cost(c) <= 12000:
+                if len(out) % 4 == 1:
+                    c["loader"] = "dict"
                 out.append(c)
         return out
 
@@ -663,12 +700,12 @@ class RecursionStream(NestStream):
         n = ctx.scale(300, 3000)
         while len(out) < n:
             ids = Ids()
-            depth = rng.range(2, 7)
+            depth = rng.range(4, 8)
 
             def ref(names, in_copy):
                 tag = "render" if in_copy or rng.chance(50) else "include"
                 mode = rng.choice(["plain", "plain", "for", "with_array"])
-                return [tag, ids.new(), rng.choice(names), mode, rng.choice([1, 1, 2, 0]) if mode != "plain" else 0]
+                return [tag, ids.new(), rng.choice(names), mode, rng.choice([1, 2, 2, 0]) if mode != "plain" else 0]
 
             names = ["p0", "p1"][: rng.range(1, 2)]
             templates = []
@@ -677,7 +714,7 @@ class RecursionStream(NestStream):
                 inner = [ref(names, False)]
                 w = rng.below(4)
                 if w == 0:
-                    inner = [["for", ids.new(), rng.choice([1, 1, 2]), "array", inner, []]]
+                    inner = [["for", ids.new(), rng.choice([1, 2, 2]), "array", inner, []]]
                 elif w == 1:
                     inner = [["tablerow", ids.new(), rng.choice([1, 2]), "array", None, inner]]
                 elif w == 2:
@@ -688,8 +725,8 @@ class RecursionStream(NestStream):
                     body.append(["mark", ids.new()])
                 templates.append([nm, body])
             main = [ref(names, False), ["mark", ids.new()]]
-            lim = rng.choice([None, 1, 2, 3, 4, 8, 16, 64, 200])
-            c = {"limit": lim, "depth": depth, "async": bool(len(out) % 2), "templates": templates, "main": main}
+            lims = rng.sample([None, 1, 2, 3, 4, 8, 16, 64, 200], 3)
+            c = {"limits": lims, "depth": depth, "async": bool(len(out) % 2), "loader": "dict", "templates": templates, "main": main}
             out.append(c)
         return out
 
@@ -704,11 +741,11 @@ def regress_cases():
         for outer in ("tablerow", "include-for", "include-with", "render-for"):
             for b in BOUNDARIES:
                 for innerk in ("for", "tablerow", "render-for"):
-                    out.append(build_chain([(outer, 5), (innerk, 5)], [b], 20, is_async=a))
-        out.append(build_chain([("for", 5), ("for", 5)], ["none"], 20, is_async=a))
-        out.append(build_chain([("for", 5), ("for", 5)], ["none"], 25, is_async=a))
-        out.append(build_chain([("for", 5), ("for", 0), ("for", 12)], ["none", "none"], 4, is_async=a))
-        out.append(build_chain([("tablerow", 12), ("tablerow", 12), ("tablerow", 2)], ["none", "none"], 200, is_async=a))
+                    out.append(build_chain([(outer, 5), (innerk, 5)], [b], [19, 20, 24, 25], is_async=a))
+        out.append(build_chain([("for", 5), ("for", 5)], ["none"], [20], is_async=a))
+        out.append(build_chain([("for", 5), ("for", 5)], ["none"], [25], is_async=a))
+        out.append(build_chain([("for", 5), ("for", 0), ("for", 12)], ["none", "none"], [4], is_async=a))
+        out.append(build_chain([("tablerow", 12), ("tablerow", 12), ("tablerow", 2)], ["none", "none"], [200], is_async=a))
     return out
 
 
